@@ -141,13 +141,14 @@ const KINDS7: [Kind; 7] =
     [Kind::Skip, Kind::Simple, Kind::Act(D_RETURN), Kind::Act(D_CONTINUE), Kind::Act(D_RESET_CONTINUE), Kind::Fallible(D_RETURN), Kind::Fallible(D_ERR)];
 
 pub fn kinds_family(full: bool) -> Vec<Spec> {
-    let triples = [[cat(plus(ch('a')), ch('b')), ch('a'), Re::Any], [st("abab"), st("ab"), ch('c')]];
+    let join = cat(cat(alt(ch('a'), ch('b')), star(ch('c'))), ch('b'));
+    let triples = [[cat(plus(ch('a')), ch('b')), ch('a'), Re::Any], [st("abab"), st("ab"), ch('c')], [ch('a'), join, ch('c')]];
     let mut out = vec![];
     for (ti, t) in triples.iter().enumerate() {
         for k0 in KINDS7 {
             for k1 in KINDS7 {
                 for k2 in [Kind::Act(D_RETURN), Kind::Skip, Kind::Act(D_CONTINUE)] {
-                    if !full && ti == 1 && !matches!(k2, Kind::Act(D_RETURN)) {
+                    if (!full && ti == 1 || ti == 2) && !matches!(k2, Kind::Act(D_RETURN)) {
                         continue;
                     }
                     out.push(Spec::single(vec![rule(t[0].clone(), k0), rule(t[1].clone(), k1), rule(t[2].clone(), k2)], "kinds"));
@@ -179,7 +180,12 @@ fn set_shapes() -> Vec<Vec<Re>> {
         vec![],
         vec![ch('a')],
         vec![st("ab"), ch('a')],
+        // a join state flagged for backtracking that is also reachable with nothing recorded
+        // ("bc…": fails through `backtrack()` with no saved match)
+        vec![ch('a'), cat(cat(alt(ch('a'), ch('b')), star(ch('c'))), ch('b'))],
         vec![plus(ch('a')), ch('b')],
+        // accepting only under a right context, with outgoing transitions
+        vec![Re::Any, ch('c')],
         vec![cat(plus(ch('a')), ch('b')), ch('a'), ch('c')],
         vec![alt(st("ab"), st("ac")), cat(ch('a'), star(ch('b'))), ch('c')],
         vec![cat(ch('b'), opt(st("ab"))), st("ba")],
@@ -192,10 +198,16 @@ fn set_shapes() -> Vec<Vec<Re>> {
 pub fn sets_family(n_shapes: usize, third: &[usize], with_orders: bool) -> Vec<Spec> {
     let shapes = set_shapes();
     let mk = |sh: &Vec<Re>, to: usize| -> Vec<Rule> {
-        sh.iter()
+        let mut v: Vec<Rule> = sh
+            .iter()
             .enumerate()
             .map(|(i, r)| rule(r.clone(), if i == 0 { Kind::Act(d_switch_return(to)) } else if i == 1 { Kind::Act(d_switch(to)) } else { Kind::Act(D_RETURN) }))
-            .collect()
+            .collect();
+        // the `_ , 'c'` shape: `'a'+ > 'b'` in front (an accept that holds only under its context)
+        if sh.len() == 2 && sh[0] == Re::Any {
+            v[0] = Rule { re: plus(ch('a')), ctx: Some(ch('b')), kind: Kind::Act(d_switch_return(to)) };
+        }
+        v
     };
     let mut out = vec![];
     for s0 in 1..n_shapes.min(shapes.len()) {
@@ -213,9 +225,9 @@ pub fn sets_family(n_shapes: usize, third: &[usize], with_orders: bool) -> Vec<S
         }
     }
     // one named rule set only, and four rule sets
-    out.push(Spec { named: true, ..Spec::single(mk(&shapes[4], 0), "sets") });
-    out.push(Spec::multi(vec![mk(&shapes[2], 3), mk(&shapes[0], 0), mk(&shapes[5], 1), mk(&shapes[3], 2)], "sets"));
-    let mut sp = Spec::multi(vec![mk(&shapes[3], 2), mk(&shapes[6], 3), mk(&shapes[1], 1), mk(&shapes[4], 0)], "sets");
+    out.push(Spec { named: true, ..Spec::single(mk(&shapes[6], 0), "sets") });
+    out.push(Spec::multi(vec![mk(&shapes[2], 3), mk(&shapes[0], 0), mk(&shapes[7], 1), mk(&shapes[3], 2)], "sets"));
+    let mut sp = Spec::multi(vec![mk(&shapes[4], 2), mk(&shapes[8], 3), mk(&shapes[1], 1), mk(&shapes[6], 0)], "sets");
     sp.decl_order = vec![3, 1, 2];
     out.push(sp);
     out
@@ -247,11 +259,27 @@ pub fn eoi_family() -> Vec<Spec> {
         vec![alt(cat(st("ab"), Re::Eoi), st("abc")), ch('a'), ch('b')],
         vec![Re::Eoi, cat(plus(ch('a')), st("bc")), ch('a'), ch('b')],
         vec![cat(star(ch('a')), Re::Eoi), plus(ch('a')), ch('b')],
+        // input can end inside a lexeme in a state that is flagged for backtracking but was
+        // reached with nothing recorded, while `Init` has a `$` rule
+        vec![Re::Eoi, ch('a'), cat(cat(alt(ch('a'), ch('b')), star(ch('c'))), ch('b'))],
+        vec![cat(ch('a'), Re::Eoi), ch('a'), cat(alt(ch('a'), ch('b')), st("cb"))],
     ];
     for t in &tails {
         for k in [Kind::Act(D_RETURN), Kind::Act(D_CONTINUE), Kind::Fallible(D_RETURN)] {
             out.push(Spec::single(t.iter().enumerate().map(|(i, r)| rule(r.clone(), if i == 0 { k } else { Kind::Act(D_RETURN) })).collect(), "eoi1"));
         }
+    }
+    // an accept that holds only under its right context, input ending right after it, `$` rule in Init
+    for k in [Kind::Act(D_RETURN), Kind::Act(D_CONTINUE)] {
+        out.push(Spec::single(vec![rule(Re::Eoi, k), Rule { re: plus(ch('a')), ctx: Some(ch('b')), kind: Kind::Act(D_RETURN) }, ret(ch('c'))], "eoi1"));
+        out.push(Spec::multi(
+            vec![
+                vec![rule(Re::Eoi, k), rule(ch('b'), Kind::Act(d_switch_return(1))), ret(ch('a'))],
+                vec![ret(ch('a')), ret(cat(cat(alt(ch('a'), ch('b')), star(ch('c'))), ch('b')))],
+            ],
+            "eoi",
+        ));
+        out.push(Spec::multi(vec![vec![rule(Re::Eoi, k), rule(ch('b'), Kind::Act(d_switch_return(1)))], vec![ret(st("ab")), ret(ch('c'))]], "eoi"));
     }
     out
 }
@@ -282,6 +310,10 @@ pub fn ctx_family(full: bool) -> Vec<Spec> {
         alt(st("ab"), cat(ch('c'), Re::Eoi)),
         cat(Re::Any, ch('a')),
         cat(set(&[('a', 'b')]), set(&[('b', 'c')])),
+        // a character with its own (accepting) transition inside a range / `_` that goes elsewhere
+        alt(ch('a'), cat(set(&[('a', 'c')]), ch('b'))),
+        alt(ch('b'), cat(Re::Any, ch('a'))),
+        alt(set(&[('a', 'b')]), cat(Re::Any, ch('c'))),
     ];
     for c0 in &ctxs2 {
         for c1 in &ctxs2 {
@@ -460,7 +492,7 @@ pub fn groups(prop: &str, tier: &str) -> Vec<Group> {
             vec![Group { plan: plan("C02", Proj::Tokens, 6, 0), specs }]
         }
         "C03" => {
-            let specs = if q { sets_family(6, &[2, 4], true) } else { sets_family(8, &[0, 2, 4, 5, 7], true) };
+            let specs = if q { sets_family(6, &[2, 3, 5], true) } else { sets_family(10, &[0, 2, 3, 5, 6, 9], true) };
             vec![Group { plan: plan("C03", Proj::RuleIds, 5, if q { 2 } else { 3 }), specs }]
         }
         "C04" => vec![Group { plan: plan("C04", Proj::Full, if q { 5 } else { 6 }, if q { 0 } else { 1 }), specs: ctx_family(!q) }],
@@ -479,7 +511,7 @@ pub fn groups(prop: &str, tier: &str) -> Vec<Group> {
             };
             let mut g = vec![mk(&BETA1, if q { 10 } else { 14 }), mk(&BETA2, if q { 7 } else { 14 })];
             // ASCII control: same shapes under the identity binding, with accumulation over switches
-            g.push(Group { plan: plan("C06", Proj::Locs, 5, 1), specs: if q { sets_family(4, &[2], false) } else { sets_family(6, &[2, 4], true) } });
+            g.push(Group { plan: plan("C06", Proj::Locs, 5, 1), specs: if q { sets_family(6, &[3], false) } else { sets_family(8, &[2, 3, 5], true) } });
             g
         }
         "C07" => {
@@ -488,7 +520,7 @@ pub fn groups(prop: &str, tier: &str) -> Vec<Group> {
             vec![Group { plan: p, specs: errors_family() }]
         }
         "C08" => {
-            let mut specs = if q { sets_family(6, &[2, 4], false) } else { sets_family(8, &[0, 2, 4, 5, 7], true) };
+            let mut specs = if q { sets_family(6, &[2, 3, 5], false) } else { sets_family(10, &[0, 2, 3, 5, 6, 9], true) };
             specs.extend(eoi_family().into_iter().filter(|s| s.sets.len() > 1));
             // the quoted case: Init{'a','s'->switch R} R{'b'} on "sxaab"
             specs.push(Spec::multi(vec![vec![ret(ch('a')), rule(ch('s'), Kind::Act(d_switch(1)))], vec![ret(ch('b'))]], "recovery_quoted"));
@@ -513,8 +545,9 @@ pub fn groups(prop: &str, tier: &str) -> Vec<Group> {
                 "\u{10FFFF}\u{0}\u{D7FF}\u{E000}".repeat(50),
                 "aab".repeat(long / 3) + "aax",
             ];
-            let g2 = Group { plan: with(plan("C09", Proj::Progress, if q { 4 } else { 5 }, 2), |p| p.extra_inputs = vec!["ab".repeat(5000)]), specs: sets_family(5, &[2], false) };
-            vec![Group { plan: p, specs }, g2]
+            let g2 = Group { plan: with(plan("C09", Proj::Progress, if q { 4 } else { 5 }, 2), |p| p.extra_inputs = vec!["ab".repeat(5000)]), specs: sets_family(6, &[3], false) };
+            let g3 = Group { plan: with(plan("C09", Proj::Progress, if q { 4 } else { 5 }, 1), |p| p.alphabet = vec!['a', 'b', 'c']), specs: eoi_family() };
+            vec![Group { plan: p, specs }, g2, g3]
         }
         "C10" => vec![Group { plan: plan("C10", Proj::Full, if q { 5 } else { 6 }, 2), specs: kinds_family(true) }],
         "C14" => {
@@ -524,16 +557,39 @@ pub fn groups(prop: &str, tier: &str) -> Vec<Group> {
             p.ctors = vec![CTOR_NEW_WITH_STATE, CTOR_FROM_ITER_WITH_STATE, CTOR_NEW, CTOR_FROM_ITER, CTOR_FROM_CHARS_ITER];
             let mut p2 = p.clone();
             p2.max_len = if q { 4 } else { 5 };
-            vec![Group { plan: p, specs }, Group { plan: p2, specs: if q { sets_family(5, &[2], false) } else { sets_family(7, &[2, 4], true) } }]
+            let mut p3 = p.clone();
+            p3.alphabet = vec!['a', 'b', 'c'];
+            p3.max_len = if q { 4 } else { 5 };
+            let mut p4 = p.clone();
+            p4.alphabet = BETA1.to_vec();
+            p4.max_len = if q { 4 } else { 5 };
+            let mut p5 = p4.clone();
+            p5.alphabet = BETA2.to_vec();
+            vec![
+                Group { plan: p, specs },
+                Group { plan: p2, specs: if q { sets_family(6, &[3], false) } else { sets_family(8, &[2, 3, 5], true) } },
+                Group { plan: p3, specs: eoi_family() },
+                Group { plan: p4, specs: wide_family(&BETA1, if q { 6 } else { 10 }) },
+                Group { plan: p5, specs: wide_family(&BETA2, if q { 5 } else { 10 }) },
+            ]
         }
         "C15" => {
-            let mut specs = if q { sets_family(4, &[2], false) } else { sets_family(6, &[2, 4], false) };
+            let mut specs = if q { sets_family(6, &[3], false) } else { sets_family(8, &[2, 3, 5], false) };
             specs.extend(eoi_family().into_iter().step_by(if q { 5 } else { 2 }));
             specs.extend(regress_single());
             specs.extend(errors_family().into_iter().step_by(if q { 17 } else { 5 }));
             let mut p = plan("C15", Proj::Clones, if q { 4 } else { 5 }, if q { 0 } else { 1 });
             p.check_probe_neutral = false;
-            vec![Group { plan: p, specs }]
+            let mut pb = p.clone();
+            pb.alphabet = vec!['A', 'b', 'Z', ' '];
+            pb.max_len = if q { 4 } else { 5 };
+            let tables = vec![
+                Spec::single(vec![ret(plus(builtin("uppercase"))), ret(plus(builtin("lowercase"))), rule(ch(' '), Kind::Skip)], "two_tables"),
+                Spec::single(vec![ret(cat(builtin("XID_Start"), star(builtin("XID_Continue")))), ret(plus(builtin("numeric"))), ret(ch(' '))], "two_tables"),
+                Spec::single(vec![ret(plus(builtin("lowercase"))), Rule { re: builtin("alphabetic"), ctx: Some(builtin("uppercase")), kind: Kind::Act(D_RETURN) }, ret(Re::Any)], "two_tables"),
+                Spec::multi(vec![vec![rule(plus(builtin("uppercase")), Kind::Act(d_switch_return(1))), ret(Re::Any)], vec![rule(plus(builtin("lowercase")), Kind::Act(d_switch_return(0))), ret(ch(' '))]], "two_tables"),
+            ];
+            vec![Group { plan: p, specs }, Group { plan: pb, specs: tables }]
         }
         "C13" => {
             // three generated membership-test shapes per built-in: per-range arms (`$$n`), guard
@@ -565,7 +621,7 @@ pub fn groups(prop: &str, tier: &str) -> Vec<Group> {
             // repeat a character, built-ins in every position, many rules, chains, several rule sets
             let mut specs: Vec<Spec> = ctx_family(!q).into_iter().step_by(if q { 4 } else { 1 }).collect();
             specs.extend(stress_family().into_iter().filter(|s| s.family != "chain_long"));
-            specs.extend(sets_family(5, &[2, 4], true).into_iter().step_by(if q { 7 } else { 2 }));
+            specs.extend(sets_family(6, &[2, 3, 5], true).into_iter().step_by(if q { 7 } else { 2 }));
             specs.extend(eoi_family().into_iter().step_by(if q { 9 } else { 3 }));
             specs.extend(kinds_family(false).into_iter().step_by(if q { 13 } else { 3 }));
             let mut p = plan("C12", Proj::Full, if q { 3 } else { 4 }, 0);
@@ -759,8 +815,8 @@ pub fn p_family(name: &str) -> Option<PFamily> {
                 }),
             }
         }
-        "rsets_quick" => from_vec(sets_family(6, &[2, 4], true)),
-        "rsets" => from_vec(sets_family(8, &[0, 2, 4, 5, 7], true)),
+        "rsets_quick" => from_vec(sets_family(6, &[2, 3, 5], true)),
+        "rsets" => from_vec(sets_family(10, &[0, 2, 3, 5, 6, 9], true)),
         // every rule set drawn from an enumerated menu: all sequences of 2 and 3 rule sets over
         // single-rule and two-rule sets of RE+(2, A6)
         "rsets_enum" => {
@@ -787,6 +843,38 @@ pub fn p_family(name: &str) -> Option<PFamily> {
         }
         "regress" => from_vec(regress_single()),
         "stress" => from_vec(stress_family()),
+        // `#` and `|` between classes with several pieces, used inside rules
+        "diff_rules" => {
+            let atoms = vec![
+                ch('b'),
+                set(&[('a', 'c')]),
+                set(&[('b', 'd')]),
+                set(&[('a', 'b'), ('d', 'e')]),
+                set(&[('a', 'a'), ('c', 'c'), ('e', 'e')]),
+                set(&[('a', 'c'), ('e', 'g')]),
+                set(&[('a', 'g')]),
+                Re::Any,
+            ];
+            let mut classes = atoms.clone();
+            for a in &atoms {
+                for b in &atoms {
+                    classes.push(diff(a.clone(), b.clone()));
+                    classes.push(alt(a.clone(), b.clone()));
+                    classes.push(diff(diff(atoms[6].clone(), a.clone()), b.clone()));
+                }
+            }
+            let env = Env::new();
+            let mut v = vec![];
+            for c in classes {
+                if crate::iset::scalar_only(&class_of(&c, &env).unwrap()).is_empty() {
+                    continue;
+                }
+                v.push(Spec::single(vec![ret(c.clone())], "diff_rules"));
+                v.push(Spec::single(vec![ret(cat(plus(c.clone()), ch('c'))), ret(ch('a'))], "diff_rules"));
+                v.push(Spec::single(vec![ret(cat(ch('a'), c.clone())), ret(set(&[('a', 'g')]))], "diff_rules"));
+            }
+            from_vec(v)
+        }
         _ => return None,
     })
 }
